@@ -131,7 +131,7 @@ PROPS = {
     },
     "C05": {
         "lean_modules": ["TemporalModel.Props.C05"],
-        "suites": ["c05"],
+        "suites": ["c05", "api"],
         "spec_ops": {"pdt_round": "pdt_round_spec"},
         "level_text": "Proof: C05_time_add_exact (AddTime is nanosecond-exact with carry into whole days), C05_add_compose (AddDateTime "
                       "= exact time part + C04 date part + limit check -> RangeError), C05_carry_no_wrap / C05_add_huge_time, "
@@ -242,7 +242,7 @@ PROPS = {
     },
     "C14": {
         "lean_modules": ["TemporalModel.Props.C14"],
-        "suites": ["c14"],
+        "suites": ["c14", "c13"],
         "spec_ops": {"zdt_law": "zdt_law_spec", "zdt_sod": "zdt_sod_spec", "zdt_hid": "zdt_hid_spec", "du_zlaw": "du_zlaw_spec"},
         "level_text": "Proof: C14_until_across_zones (the other value in another zone: a RangeError with a date largest unit whatever the instants, the exact instant difference with a time largest unit, option errors first), C14_add_time_exact (no date units: exact instant addition, range-checked), C14_add_wall_then_exact "
                       "(date units: date part on the wall-clock date, time of day kept, re-resolved with `compatible`, then the time "
